@@ -58,7 +58,10 @@ def run_one(pid, m, repo):
             if os.path.isdir(os.path.join(repo, sub)):
                 shutil.copytree(os.path.join(repo, sub), os.path.join(tmp, sub),
                                 ignore=shutil.ignore_patterns("__pycache__"))
-        if m.get("alpha"):
+        if m.get("idiom"):
+            from .idioms import rewrite_tree
+            rewrite_tree(os.path.join(tmp, "torchtt"), m["idiom"])
+        elif m.get("alpha"):
             from .alpha import rename_tree, rename_params
             if m.get("params"):
                 rename_params(os.path.join(tmp, "torchtt"), m["alpha"])
@@ -177,6 +180,8 @@ def run(pids, jobs=16, reduced=False):
         if ms and not reduced:
             ms = ms + [dict(name="alpha-rename-all-locals", alpha="_r", expect="clean"),
                        dict(name="alpha-rename-private-and-dunder-parameters", alpha="_p", params=True, expect="clean")]
+            from .idioms import REWRITES
+            ms = ms + [dict(name=f"idiom-rewrite:{w}", idiom=w, expect="clean") for w in REWRITES]
         work += [(pid, m) for m in ms]
     if not work:
         print("[ttsa selftest] no mutants registered for", ",".join(pids))
